@@ -24,9 +24,9 @@ EventStep(e) ==
   \/ /\ e.e = "open"
      /\ acked \subseteq Range(e.log)                        \* every acknowledged event survived
      /\ Range(e.log) \subseteq Range(started)               \* nothing that was never appended
-     /\ Cardinality(Range(e.log) \ acked) <= e.writers      \* plus at most the ones in flight
+     /\ Cardinality((Range(e.log) \ Range(lastLog)) \ acked) <= e.writers   \* plus at most the ones in flight when it was killed
      /\ \A i, j \in 1..Len(e.log) : i # j => e.log[i] # e.log[j]
-     /\ e.writers = 1 => InOrder(e.log, started)            \* same order
+     /\ e.writers = 1 => InOrder(SubSeq(e.log, Len(lastLog) + 1, Len(e.log)), started)   \* what this run added is in call order
      /\ IsPrefix(lastLog, e.log)                            \* the same sequence as before, only longer
      /\ e.offsincreasing /\ e.payloadok
      /\ e.saved = saveAcked \/ e.saved \in saveStarted      \* the acknowledged saved offset (or one in flight)
